@@ -47,6 +47,15 @@ pub(crate) trait Unifier: DerefMut<Target = MachineState> {
                     self.fail = true;
                 }
             }
+            (HeapCellValueTag::PStrLoc, pstr_loc) => {
+                // a partial string is a list: it unifies with a '.'/2 structure cell
+                // just as it does when the structure cell is on the right
+                if a1 == 2 && n1 == atom!(".") {
+                    Self::unify_partial_string(self, pstr_loc, str_loc_as_cell!(s1));
+                } else {
+                    self.fail = true;
+                }
+            }
             (HeapCellValueTag::Atom, (n2, a2)) => {
                 self.fail = !(a1 == 0 && a2 == 0 && n1 == n2);
             }
